@@ -24,6 +24,10 @@ class Budget(BaseException):
     """A resource bound of the harness (e.g. reads from a stream) was exceeded."""
 
 
+class Divergence(BaseException):
+    """A re-execution did not follow the recorded decisions (engine defect or nondeterministic code under test)."""
+
+
 class OutOfDomain(ValueError):
     """Raised by the enum shim for the 'no member has this value' alternative.  It is a real
     ValueError (so `except ValueError` in the code under test behaves), tagged so that harnesses
@@ -60,6 +64,7 @@ class Engine:
         self.atoms = []
         self.forks_on_path = 0
         self.cur_model = None      # a model of pc, when one is known (saves solver calls)
+        self.concretised = []      # values handed out by choose_concrete on this path (relevance-guided sampling)
 
     def _solve(self, extra=None, want_model=True):
         """sat? of pc (and extra).  Keeps the model: a model of pc-and-extra is a model of pc."""
@@ -161,14 +166,56 @@ class Engine:
         if ent[2]:
             self.forks_on_path += 1
         self.pos += 1
+        if len(ent) != 3 or ent[0] >= len(conds):
+            raise Divergence('choose: %d alternatives where the recorded decision has index %r' % (len(conds), ent[0]))
         self._commit(conds[ent[0]])
         return ent[0]
+
+    def choose_concrete(self, e, why='', limit=MAXDOM):
+        """concretise the term e: fork over all its values when there are at most `limit`; otherwise continue with a
+        few of them (under-approximation, the run is marked incomplete): the values already handed out on this path that
+        e can also take (so equality patterns between concretised values are all reached), then one or two fresh ones.
+        The values are recorded with the decision, so re-executions neither re-enumerate nor diverge."""
+        if self.pos < len(self.stack):
+            ent = self.stack[self.pos]
+            if len(ent) != 5:
+                raise Divergence('choose_concrete: recorded decision is of another kind')
+        else:
+            dom = self.domain(e, limit)
+            if not dom:
+                raise Abort('infeasible')
+            sampled = len(dom) > limit
+            if sampled:
+                picks = []
+                for v in self.concretised:
+                    if v not in picks and len(picks) < 6 and self.feasible(e == v):
+                        picks.append(v)
+                fresh = [v for v in (dom[0], min(dom), max(dom)) if v not in picks]
+                for v in fresh[:max(1, 3 - len(picks))]:
+                    if v not in picks:
+                        picks.append(v)
+                vals = picks
+            else:
+                vals = sorted(dom)
+            ent = [0, list(range(1, len(vals))), len(vals) > 1, vals, sampled]
+            self.stack.append(ent)
+        if ent[2]:
+            self.forks_on_path += 1
+        self.pos += 1
+        if ent[4]:
+            self.sampled = 'concretisation for %s' % why
+        v = ent[3][ent[0]]
+        self._commit(e == v)
+        self.concretised.append(v)
+        return v
 
     def choose_value(self, e, limit=100000):
         """fork over the values the term e can take under pc (enumerated by the solver, one call per
         value); returns the chosen value as an unsigned int of e's width"""
         if self.pos < len(self.stack):
             ent = self.stack[self.pos]
+            if len(ent) != 4:
+                raise Divergence('choose_value: recorded decision is of another kind')
         else:
             vals = []
             keep = self.cur_model
@@ -299,7 +346,31 @@ def proxy_rejected(e):
         msg = str(e.args[0]) if e.args and isinstance(e.args[0], str) else ''
         if any(n in msg for n in _PROXY_NAMES):
             raise Unsupported('a C-level operation rejected a proxy value: %s: %s' % (type(e).__name__, msg[:160]))
+    if isinstance(e, TypeError) and e.__traceback__ is not None:
+        # a TypeError raised by a C function (no frame of its own) called from code that holds proxy values: C argument
+        # converters reject objects that are not exact ints/strs/bytes with messages that do not name the class
+        tb = e.__traceback__
+        while tb.tb_next is not None:
+            tb = tb.tb_next
+        fr = tb.tb_frame
+        if '/vxlib/' not in fr.f_code.co_filename and _holds_proxy(fr):
+            raise Unsupported('a TypeError was raised in a frame that holds proxy values (%s:%d): %s'
+                              % (fr.f_code.co_name, tb.tb_lineno, str(e)[:120]))
     return e
+
+
+def _holds_proxy(frame):
+    def is_proxy(v):
+        return type(v).__name__ in _PROXY_NAMES and type(v).__module__.startswith('vxlib.')
+    for v in list(frame.f_locals.values()):
+        if is_proxy(v):
+            return True
+        if isinstance(v, (list, tuple)) and any(is_proxy(x) for x in v[:16]):
+            return True
+        d = getattr(v, '__dict__', None)
+        if isinstance(d, dict) and type(v).__module__.startswith('pykdebugparser') and any(is_proxy(x) for x in list(d.values())):
+            return True
+    return False
 
 
 def as_bool(c):
